@@ -7,7 +7,7 @@ LOG=$OUT/$K/confirm.log
 cd $WT && git checkout -q -- . || exit 9
 [ -d $B ] || cmake -G Ninja -S $WT -B $B -DOPTION_RUN_DOXYGEN=OFF -DOPTION_BUILD_TESTS=ON -DCMAKE_BUILD_TYPE=Release >> $LOG 2>&1
 cmake --build $B -j4 >> $LOG 2>&1 || { echo "$P/$K clean build failed"; exit 9; }
-g++ -std=c++11 -I$WT/src -I$B/src $OUT/$K/demo.cpp -o $OUT/$K/demo -L$B/src/Vector/BLF -lVector_BLF -Wl,-rpath,$B/src/Vector/BLF -lpthread >> $LOG 2>&1 || { echo "$P/$K demo compile failed"; exit 9; }
+g++ -std=c++11 -I$WT/src -I$B/src $OUT/$K/demo.cpp -o $OUT/$K/demo -L$B/src/Vector/BLF -lVector_BLF -Wl,-rpath,$B/src/Vector/BLF -lpthread -lz >> $LOG 2>&1 || { echo "$P/$K demo compile failed"; exit 9; }
 $OUT/$K/demo >> $LOG 2>&1; c0=$?
 git apply $OUT/$K/patch.diff || { echo "$P/$K patch does not apply"; exit 9; }
 cmake --build $B -j4 >> $LOG 2>&1 || { echo "$P/$K patched build failed"; git checkout -q -- .; exit 9; }
